@@ -239,6 +239,13 @@ def r1_fullfact(ctx, repo):
                "table construction not recognised", key="index-pairing")
     bf = doe.functions.get("build_full_fact")
     d = func_params(bf)[0]
+    from ..astutil import loose_isclose
+    li = loose_isclose(bf)
+    if li:
+        c_, relv, absv = li[0]
+        ctx.violated("R1", "doe.build_full_fact", where(doe, c_), "levels of a factor are merged when they are close (%s, relative %g, absolute %g): two levels the user gave as different - small "
+                     "magnitudes, or large values with a fine step - count as one, so the design no longer contains every combination of the given levels" % (text(c_)[:70], relv, absv), key="wiring")
+        return
     rts = [canonical(t) for _, t in Terms(bf).returns if t is not None]
     want = "construct_df(fullfact([len({d}[_0]) for _0 in {d}]), [{d}[_1] for _1 in {d}])".format(d=d)
     ctx.check3(True if rts == [want] else None, "R1", "doe.build_full_fact", where(doe, bf), "level counts and level lists are collected in the same key order and passed to fullfact / construct_df",
